@@ -1,8 +1,8 @@
 """C18 — Explicit removal and vanish remove exactly their targets."""
 from ._store import run_store
 
-THEOREMS = ['remove_exact', 'removed_is_gone', 'others_stay', 'resubmit_after_remove', 'resubmit_not_deleted_by_removal', 'vanish_only_removes', 'ephemeral_never_live']
+THEOREMS = ['remove_exact', 'removed_is_gone', 'others_stay', 'resubmit_after_remove', 'resubmit_not_deleted_by_removal', 'vanish_only_removes', 'vanish_exact', 'ephemeral_never_live']
 
 
 def run():
-    run_store('C18', THEOREMS, """Focus: remove_event of present / absent / already removed ids, vanish of authors with zero to many events and gift-wraps naming them first / later / as a non-first value / in upper case, resubmission after removal, ephemeral kinds; oracle: the retrievable set, markers and extra tables after every step equal the specification's (exactly the targets gone, nothing else).""", {'reply', 'live', 'markers', 'extra', 'query'})
+    run_store('C18', THEOREMS, """Focus: remove_event of present / absent / already removed ids, vanish of authors with zero to many events and gift-wraps naming them first / later / as a non-first value / in upper case, resubmission after removal, ephemeral kinds; oracle: the retrievable set, markers and extra tables after every step equal the specification's (exactly the targets gone, nothing else).""", {'reply', 'live', 'markers', 'extra', 'query'}, relevant={'REM', 'VAN', 'HAS', 'GID', 'DEL', 'NAD', 'XDP'})
